@@ -7,9 +7,43 @@ import coqterm as ct
 import networkx as nx
 from fgutils.its import get_its, split_its, ITS
 from fgutils.parse import parse
-from fgutils.rdkit import graph_to_smiles
+from fgutils.rdkit import graph_to_smiles, mol_smiles_to_graph
 from props.c09 import (rand_valid_mol, edit_bonds, make_smiles_case, make_reaction, add_derivation, rand_deriv,
                        rand_aam_map, derive, graph_level_state, args_untouched)
+
+import contextlib
+import io
+import fgutils
+import fgutils.its
+import fgutils.utils
+
+
+def _discover_split_entries():
+    """Every entry point that splits an ITS graph: fgutils.its.split_its, the deprecated copy fgutils.utils.split_its
+    (prints a warning) and, if the package root exports the name, that alias too. ITS.split is exercised by the
+    class_split / class_seq operations."""
+    entries = {"its": fgutils.its.split_its}
+    if hasattr(fgutils.utils, "split_its"):
+        entries["utils"] = fgutils.utils.split_its
+    if hasattr(fgutils, "split_its") and callable(getattr(fgutils, "split_its")):
+        entries["package"] = fgutils.split_its
+    return entries
+
+
+SPLIT_ENTRIES = _discover_split_entries()
+
+
+def do_split(its, entry="its"):
+    """split through the chosen entry point; the deprecation warning printed on stdout is swallowed"""
+    f = SPLIT_ENTRIES.get(entry, split_its)
+    with contextlib.redirect_stdout(io.StringIO()):
+        return f(its)
+
+
+def pick_entry(rng):
+    names = sorted(SPLIT_ENTRIES)
+    return "its" if rng.random() < 0.5 or len(names) == 1 else rng.choice([n for n in names if n != "its"])
+
 
 ID = "C10"
 REPEAT_PROBE = True   # engine: repeat 1 call in 5 after editing its first result in place (purity / no shared state)
@@ -313,7 +347,7 @@ def gen_its_split(rng):
     return {"op": "its_split", "G": G, "H": H, "src": "its_split/" + scheme}
 
 
-def generate(seed, tier, ncases=None):
+def _generate(seed, tier, ncases=None):
     n = ncases or (800 if tier == "quick" else 30000)
     for i in range(n):
         rng = lib.rng_for(seed, ID, i)
@@ -347,6 +381,14 @@ def generate(seed, tier, ncases=None):
             yield gen_its_split(rng)
 
 
+def generate(seed, tier, ncases=None):
+    n = ncases or (800 if tier == "quick" else 30000)
+    for i, c in enumerate(_generate(seed, tier, n)):
+        if c["op"] in ("split", "smiles_split", "split_hist", "resup", "its_split", "its_split_hist"):
+            c["entry"] = pick_entry(lib.rng_for(seed, ID + "/entry", i))
+        yield c
+
+
 def corpus():
     # D11 witness: map numbers not ascending along the edge list
     its = nx.Graph()
@@ -357,6 +399,9 @@ def corpus():
     its.add_edge(2, 3, bond=(0, 1))
     yield {"op": "resup", "its": its, "src": "corpus"}
     yield {"op": "split", "its": gens.copy_exact(its), "src": "corpus"}
+    for name in sorted(SPLIT_ENTRIES):
+        if name != "its":
+            yield {"op": "split", "its": gens.copy_exact(its), "src": "corpus", "entry": name}
     g = parse("C<1,2>C(<0,1>O)=O")
     g[1][3]["bond"] = [2, 0]
     yield {"op": "split", "its": g, "src": "corpus"}
@@ -371,11 +416,11 @@ def run_impl(c):
         if c["op"] in ("split", "smiles_split"):
             its = gens.copy_exact(c["its"])
             st = graph_level_state(its)
-            g, h = split_its(its)
+            g, h = do_split(its, c.get("entry", "its"))
             return ("ok", g, h, args_untouched(its, c["its"], st))
         if c["op"] == "split_hist":
             its0 = gens.copy_exact(c["its0"])
-            a, b = split_its(its0)
+            a, b = do_split(its0, c.get("entry", "its"))
             try:
                 get_its(a, b)
             except Exception:   # noqa  (halves of an arbitrary labelled graph need not be valid get_its input)
@@ -384,18 +429,18 @@ def run_impl(c):
             if not gens.graphs_identical(its, c["its"]):
                 return ("HarnessError", "derived graph differs from the recorded contents")
             st = graph_level_state(its)
-            g, h = split_its(its)
+            g, h = do_split(its, c.get("entry", "its"))
             return ("ok", g, h, args_untouched(its, c["its"], st))
         if c["op"] == "its_split_hist":
             g0, h0 = gens.copy_exact(c["G0"]), gens.copy_exact(c["H0"])
-            split_its(get_its(g0, h0))
+            do_split(get_its(g0, h0), c.get("entry", "its"))
             G, H = derive(g0, c["derivG"]), derive(h0, c["derivH"])
             if not (gens.graphs_identical(G, c["G"]) and gens.graphs_identical(H, c["H"])):
                 return ("HarnessError", "derived graphs differ from the recorded contents")
             sg, sh = graph_level_state(G), graph_level_state(H)
             its = get_its(G, H)
             its_ref, si = gens.copy_exact(its), graph_level_state(its)
-            g, h = split_its(its)
+            g, h = do_split(its, c.get("entry", "its"))
             ok = args_untouched(G, c["G"], sg) and args_untouched(H, c["H"], sh) and args_untouched(its, its_ref, si)
             return ("ok", g, h, ok, its)
         if c["op"] == "class_split":
@@ -422,7 +467,7 @@ def run_impl(c):
         if c["op"] == "resup":
             its = gens.copy_exact(c["its"])
             st = graph_level_state(its)
-            g, h = split_its(its)
+            g, h = do_split(its, c.get("entry", "its"))
             g_ref, h_ref, sg, sh = gens.copy_exact(g), gens.copy_exact(h), graph_level_state(g), graph_level_state(h)
             out = get_its(g, h)
             ok = args_untouched(its, c["its"], st) and args_untouched(g, g_ref, sg) and args_untouched(h, h_ref, sh)
@@ -432,7 +477,7 @@ def run_impl(c):
             sg, sh = graph_level_state(G), graph_level_state(H)
             its = get_its(G, H)
             its_ref, si = gens.copy_exact(its), graph_level_state(its)
-            g, h = split_its(its)
+            g, h = do_split(its, c.get("entry", "its"))
             ok = args_untouched(G, c["G"], sg) and args_untouched(H, c["H"], sh) and args_untouched(its, its_ref, si)
             return ("ok", g, h, ok)
     except Exception as e:
@@ -488,7 +533,7 @@ def describe(c):
     for k in ("its", "G", "H", "srcG", "srcH", "its0", "G0", "H0"):
         if k in c:
             d[k] = ct.graph_py(c[k])
-    for k in ("smiles", "pattern", "radius", "ih", "pre", "deriv", "derivG", "derivH"):
+    for k in ("smiles", "pattern", "radius", "ih", "pre", "deriv", "derivG", "derivH", "entry"):
         if k in c:
             d[k] = c[k]
     return d
@@ -499,7 +544,7 @@ def from_json(d):
     for k in ("its", "G", "H", "srcG", "srcH", "its0", "G0", "H0"):
         if k in d:
             c[k] = ct.graph_from_py(d[k])
-    for k in ("smiles", "pattern", "radius", "ih", "pre", "deriv", "derivG", "derivH"):
+    for k in ("smiles", "pattern", "radius", "ih", "pre", "deriv", "derivG", "derivH", "entry"):
         if k in d:
             c[k] = d[k]
     return c
@@ -514,7 +559,7 @@ def describe_out(out):
     return d
 
 
-def key(c):
+def _key(c):
     if c["op"] == "its_split":
         return (c["op"], ct.graph_canon(c["G"]), ct.graph_canon(c["H"]))
     if c["op"] == "its_split_hist":
@@ -522,6 +567,10 @@ def key(c):
     if c["op"] == "split_hist":
         return (c["op"], repr(c["deriv"]), ct.graph_canon(c["its0"]))
     return (c["op"], ct.graph_canon(c["its"]))
+
+
+def key(c):
+    return (c.get("entry"),) + _key(c)
 
 
 def _interesting_labels(g):
@@ -548,6 +597,9 @@ def nontrivial(c, out):
 
 def classes(c, out):
     yield "op=" + c["op"]
+    if "entry" in c:
+        yield "entry=" + {"its": "fgutils.its.split_its", "utils": "fgutils.utils.split_its(deprecated)",
+                          "package": "fgutils.split_its"}.get(c["entry"], c["entry"])
     if "deriv" in c:
         yield "derived=" + c["deriv"]["how"]
     if "derivG" in c:
@@ -658,6 +710,50 @@ def smiles_round_trip(smiles):
     return None
 
 
+def ignore_aam_leg(c):
+    """ITS.to_smiles(ignore_aam=True): the result carries no map number and describes the same atoms and bonds as the
+    mapped result (RDKit as oracle: canonical SMILES after removing the map numbers from the mapped molecule) and as the
+    halves ITS.split() returns (isomorphism of labelled graphs, when RDKit's aromaticity perception leaves them comparable)."""
+    import rdkit.Chem as Chem
+    msgs = []
+    try:
+        its = ITS.from_smiles(c["smiles"])
+        s_un = its.to_smiles(ignore_aam=True)
+        s_map = its.to_smiles(ignore_aam=False)
+        s_def = its.to_smiles()
+        halves = its.split()
+    except Exception as e:
+        return ["to_smiles(ignore_aam=True) leg raised %s: %s" % (type(e).__name__, e)]
+    if s_def != s_map:
+        msgs.append("to_smiles() differs from to_smiles(ignore_aam=False)")
+    if s_un.count(">>") != 1:
+        return msgs + ["to_smiles(ignore_aam=True) is not a reaction SMILES: %s" % s_un]
+    for side_un, side_map, half in zip(s_un.split(">>"), s_map.split(">>"), halves):
+        mu, mm = Chem.MolFromSmiles(side_un), Chem.MolFromSmiles(side_map)
+        if mu is None or mm is None:
+            msgs.append("RDKit rejects a side written by to_smiles: %r / %r" % (side_un, side_map))
+            continue
+        if any(a.GetAtomMapNum() != 0 for a in mu.GetAtoms()):
+            msgs.append("to_smiles(ignore_aam=True) still carries map numbers: %s" % side_un)
+        if mm.GetNumAtoms() > 0 and all(a.GetAtomMapNum() == 0 for a in mm.GetAtoms()):
+            msgs.append("to_smiles(ignore_aam=False) lost the map numbers: %s" % side_map)
+        for a in mm.GetAtoms():
+            a.SetAtomMapNum(0)
+        if Chem.MolToSmiles(mm) != Chem.MolToSmiles(mu):
+            msgs.append("to_smiles(ignore_aam=True) describes another molecule than the mapped result: %s vs %s"
+                        % (side_un, side_map))
+        gu = mol_smiles_to_graph(side_un)
+        if any("aam" in d for _, d in gu.nodes(data=True)):
+            msgs.append("reading to_smiles(ignore_aam=True) back gives map numbers")
+        arom_u = any(d["bond"] == 1.5 for _, _, d in gu.edges(data=True))
+        arom_h = any(d["bond"] == 1.5 for _, _, d in half.edges(data=True))
+        if arom_u == arom_h and not nx.is_isomorphic(
+                half, gu, node_match=lambda a, b2: a["symbol"] == b2["symbol"],
+                edge_match=lambda a, b2: a["bond"] == b2["bond"]):
+            msgs.append("the molecule written by to_smiles(ignore_aam=True) is not the half ITS.split() returns: %s" % side_un)
+    return msgs
+
+
 def _has_aromatic(view):
     return any(1.5 in lab for lab in view[1].values())
 
@@ -705,4 +801,6 @@ def py_invariants(c, out):
                 msgs.append(msg)
         if "srcG" in c and not in_known_class(c["smiles"]):
             msgs.extend(source_graph_leg(c))
+        for m in ignore_aam_leg(c):
+            msgs.append({"msg": m, "known_class": KNOWN_CLASS} if in_known_class(c["smiles"]) else m)
     return msgs
